@@ -3,51 +3,51 @@
    with val ::= i<decimal> | x<hex> | e<code> | [ val* ]
    calls the extracted Model.dispatch and prints the resulting val on one line.
    No property-specific logic lives here. *)
-open Model
+(* no `open Model`: extracted modules may define types named string, list, ... *)
 
-let byte_of_int (i : int) : byte = Obj.magic i
-let int_of_byte (b : byte) : int = Obj.magic b
+let byte_of_int (i : int) : Model.byte = Obj.magic i
+let int_of_byte (b : Model.byte) : int = Obj.magic b
 
 let hexval c = match c with
   | '0'..'9' -> Char.code c - 48 | 'a'..'f' -> Char.code c - 87
   | 'A'..'F' -> Char.code c - 55 | _ -> failwith "hex"
 
-let bytes_of_hex (s : string) (off : int) : byte list =
+let bytes_of_hex (s : string) (off : int) : Model.byte list =
   let n = (String.length s - off) / 2 in
   let rec go i acc = if i < 0 then acc else
     go (i-1) (byte_of_int (hexval s.[off+2*i] * 16 + hexval s.[off+2*i+1]) :: acc) in
   go (n-1) []
 
-let rec parse (toks : string list) : val0 list * string list =
+let rec parse (toks : string list) : Model.val0 list * string list =
   match toks with
   | [] -> ([], [])
   | "]" :: rest -> ([], rest)
   | "[" :: rest ->
       let (inner, rest') = parse rest in
       let (more, rest'') = parse rest' in
-      (VList inner :: more, rest'')
+      (Model.VList inner :: more, rest'')
   | t :: rest ->
       let v = match t.[0] with
-        | 'i' -> VInt (Big_int_Z.big_int_of_string (String.sub t 1 (String.length t - 1)))
-        | 'e' -> VErr (Big_int_Z.big_int_of_string (String.sub t 1 (String.length t - 1)))
-        | 'x' -> VBytes (bytes_of_hex t 1)
+        | 'i' -> Model.VInt (Big_int_Z.big_int_of_string (String.sub t 1 (String.length t - 1)))
+        | 'e' -> Model.VErr (Big_int_Z.big_int_of_string (String.sub t 1 (String.length t - 1)))
+        | 'x' -> Model.VBytes (bytes_of_hex t 1)
         | _ -> failwith ("token " ^ t) in
       let (more, rest') = parse rest in
       (v :: more, rest')
 
-let rec print_val (b : Buffer.t) (v : val0) : unit =
+let rec print_val (b : Buffer.t) (v : Model.val0) : unit =
   match v with
-  | VInt z -> Buffer.add_char b 'i'; Buffer.add_string b (Big_int_Z.string_of_big_int z)
-  | VErr z -> Buffer.add_char b 'e'; Buffer.add_string b (Big_int_Z.string_of_big_int z)
-  | VBytes l -> Buffer.add_char b 'x';
+  | Model.VInt z -> Buffer.add_char b 'i'; Buffer.add_string b (Big_int_Z.string_of_big_int z)
+  | Model.VErr z -> Buffer.add_char b 'e'; Buffer.add_string b (Big_int_Z.string_of_big_int z)
+  | Model.VBytes l -> Buffer.add_char b 'x';
       List.iter (fun c -> Buffer.add_string b (Printf.sprintf "%02x" (int_of_byte c))) l
-  | VList l -> Buffer.add_char b '[';
+  | Model.VList l -> Buffer.add_char b '[';
       List.iter (fun x -> Buffer.add_char b ' '; print_val b x) l; Buffer.add_string b " ]"
 
 let () =
   (* self-check of the byte representation trick against the extracted b2z *)
   for i = 0 to 255 do
-    if Big_int_Z.int_of_big_int (b2z (byte_of_int i)) <> i then failwith "byte repr"
+    if Big_int_Z.int_of_big_int (Model.b2z (byte_of_int i)) <> i then failwith "byte repr"
   done;
   let buf = Buffer.create 65536 in
   (try
@@ -59,7 +59,7 @@ let () =
        | e :: args ->
          let (vals, _) = parse args in
          Buffer.clear buf;
-         (try print_val buf (dispatch (Big_int_Z.big_int_of_string e) vals)
+         (try print_val buf (Model.dispatch (Big_int_Z.big_int_of_string e) vals)
           with Stack_overflow -> Buffer.clear buf; Buffer.add_string buf "e999");
          print_endline (Buffer.contents buf))
     done
